@@ -415,41 +415,43 @@ impl Exp {
         )
     }
 
-    /// Converts the expression to a string with proper operator precedence.
+    /// Renders `self` as the right operand of `last_operator`, adding the
+    /// parentheses the parser needs to rebuild the same grouping.
     ///
     /// # Arguments
-    /// * `last_operator` - The operator from the parent expression for precedence comparison
+    /// * `last_operator` - The operator of the parent expression
     ///
     /// # Returns
-    /// String representation with appropriate parentheses based on operator precedence
+    /// String representation, parenthesised when a looser operator, or an
+    /// operator of the same level that associativity would regroup
+    /// (`a - (b - c)`, `a / (b * c)`), is nested under `parent`
     pub fn to_string_with_precedence(&self, last_operator: BinOp) -> String {
-        let last_precedence = last_operator.precedence();
+        self.to_string_as_operand(last_operator, false)
+    }
+
+    /// Renders `self` as the left or right operand of `parent`, see
+    /// [`Exp::to_string_with_precedence`].
+    pub fn to_string_as_operand(&self, parent: BinOp, is_left_operand: bool) -> String {
         match self {
             Exp::BinOp(op, lhs, rhs) => {
-                let string_lhs = lhs.to_string_with_precedence(*op);
-                let string_rhs = rhs.to_string_with_precedence(*op);
-                let precedence = op.precedence();
-                if precedence < last_precedence {
+                let string_lhs = lhs.to_string_as_operand(*op, true);
+                let string_rhs = rhs.to_string_as_operand(*op, false);
+                let needs_parenthesis = if op.precedence() != parent.precedence() {
+                    op.precedence() < parent.precedence()
+                } else if is_left_operand {
+                    !op.is_left_associative()
+                } else {
+                    parent.is_left_associative()
+                };
+                if needs_parenthesis {
                     format!("({} {} {})", string_lhs, op, string_rhs)
                 } else {
-                    //TODO improve this
-                    match last_operator {
-                        BinOp::Add
-                        | BinOp::Mul
-                        | BinOp::Div
-                        | BinOp::And
-                        | BinOp::Or
-                        | BinOp::Xor
-                        | BinOp::Implies
-                        | BinOp::Iff => {
-                            format!("{} {} {}", string_lhs, op, string_rhs)
-                        }
-                        BinOp::Sub => match rhs.is_leaf() {
-                            true => format!("{} {} {}", string_lhs, op, string_rhs),
-                            false => format!("{} {} ({})", string_lhs, op, string_rhs),
-                        },
-                    }
+                    format!("{} {} {}", string_lhs, op, string_rhs)
                 }
+            }
+            // the structural logic variants bind looser than any arithmetic operator
+            Exp::And(_) | Exp::Or(_) | Exp::Xor(_, _) | Exp::Implies(_, _) | Exp::Iff(_, _) => {
+                format!("({})", self)
             }
             _ => self.to_string(),
         }
@@ -570,9 +572,8 @@ impl fmt::Display for Exp {
                     .join(", ")
             ),
             Exp::BinOp(operator, lhs, rhs) => {
-                //TODO: add parenthesis when needed
-                let string_lhs = lhs.to_string_with_precedence(*operator);
-                let string_rhs = rhs.to_string_with_precedence(*operator);
+                let string_lhs = lhs.to_string_as_operand(*operator, true);
+                let string_rhs = rhs.to_string_as_operand(*operator, false);
                 format!("{} {} {}", string_lhs, operator, string_rhs)
             }
             Exp::UnOp(op, exp) => {
@@ -622,7 +623,13 @@ impl Objective {
 
 impl fmt::Display for Objective {
     fn fmt(&self, f: &mut fmt::Formatter<'_>) -> fmt::Result {
-        write!(f, "{} {}", self.objective_type, self.rhs)
+        match self.objective_type {
+            // `solve` takes no expression: printing the placeholder would not parse back
+            OptimizationType::Satisfy => write!(f, "{}", self.objective_type),
+            OptimizationType::Min | OptimizationType::Max => {
+                write!(f, "{} {}", self.objective_type, self.rhs)
+            }
+        }
     }
 }
 
